@@ -100,9 +100,26 @@ pub fn judge(c: &Case, st: &mut Stats) -> Verdict {
         let spare = [0usize, 0, 1, 13, 64, 100, 4096][(c.prefill_seed as usize / 2) % 7];
         let mut buf = Vec::with_capacity(prefill.len() + spare);
         buf.extend_from_slice(&prefill);
-        let mut w = Writer::from(buf);
+        // one writer in three starts from `Writer::default()` and receives what it "already holds" through its own
+        // `io::Write` impl (the way the builder fills it) instead of being made from a Vec
+        let mut w = if (c.prefill_seed as usize / 14) % 3 == 1 {
+            let mut d = Writer::default();
+            if std::io::Write::write_all(&mut d, &prefill).is_ok() {
+                d
+            } else {
+                Writer::from(buf)
+            }
+        } else {
+            Writer::from(buf)
+        };
         let r = bld::write_val(&c.val, &data, &mut w);
-        (r.map_err(|e| format!("{:?}", e.kind())), w.finish())
+        // flushing is a no-op on an in-memory writer: it must succeed and change nothing
+        let flushed = std::io::Write::flush(&mut w).is_ok();
+        let out = w.finish();
+        if !flushed {
+            return (Err("flush() failed".to_string()), out);
+        }
+        (r.map_err(|e| format!("{:?}", e.kind())), out)
     });
     let (r, out) = match run {
         Ok(x) => x,
